@@ -134,7 +134,7 @@ Definition kern_file_key (loc : list (N * Q)) : list (N * Q) :=
    is the id -> file name function (Paths::target_file); it need not be
    injective here.  `set` skips equal values, otherwise writes the file (when
    active) and then memory; `get` reads memory, falls back to the file when
-   active, and panics (None) otherwise.  `rd` is what reading a written value
+   active, and panics (None) otherwise; `try_get` reads memory only.  `rd` is what reading a written value
    back yields (serde round trip), not assumed to be the identity. *)
 Section Ctx.
   Variable V : Type.
@@ -144,8 +144,9 @@ Section Ctx.
   Record ctx := { mem : N -> option V; disk : N -> option V }.
   Definition upd (m : N -> option V) (k : N) (v : V) : N -> option V :=
     fun k' => if k' =? k then Some v else m k'.
-  Inductive op := OSet (i : N) (v : V) | OGet (i : N).
-  Inductive out := RUnit | RVal (v : V) | RPanic.
+  (* OTry = try_get: memory only, never the disk ("was this item produced by this build?") *)
+  Inductive op := OSet (i : N) (v : V) | OGet (i : N) | OTry (i : N).
+  Inductive out := RUnit | RVal (v : V) | RPanic | RNone.
   Definition do_set (persistent : bool) (s : ctx) (i : N) (v : V) : ctx :=
     {| mem := upd (mem s) i v;
        disk := if persistent then upd (disk s) (fname i) v else disk s |}.
@@ -167,6 +168,7 @@ Section Ctx.
               end
             else (s, RPanic)
         end
+    | OTry i => (s, match mem s i with Some v => RVal v | None => RNone end)
     end.
   Fixpoint run (persistent : bool) (s : ctx) (ops : list op) : list out :=
     match ops with
@@ -179,8 +181,25 @@ Section Ctx.
     | [] => true
     | OSet i _ :: t => gets_after_sets (i :: seen) t
     | OGet i :: t => existsb (N.eqb i) seen && gets_after_sets seen t
+    | OTry _ :: t => gets_after_sets seen t
     end.
 End Ctx.
+
+(* comparison of outcome lists over numbers (used by the correspondence run) *)
+Definition out_eqb (a b : out N) : bool :=
+  match a, b with
+  | RUnit _, RUnit _ => true
+  | RVal _ x, RVal _ y => (x =? y)%N
+  | RPanic _, RPanic _ => true
+  | RNone _, RNone _ => true
+  | _, _ => false
+  end.
+Fixpoint outs_eqb (a b : list (out N)) : bool :=
+  match a, b with
+  | [], [] => true
+  | x :: a', y :: b' => out_eqb x y && outs_eqb a' b'
+  | _, _ => false
+  end.
 
 Definition q_eqb (a b : Q) : bool := (Qnum a =? Qnum b)%Z && (Qden a =? Qden b)%positive.
 Definition kern_key_eqb (a b : list (N * Q)) : bool :=
